@@ -330,11 +330,31 @@ class JSExec(GoExec, SpecMixin, CallsMixin):
         if op == '-': return z3.fpSub(rm, a, b)
         if op == '*': return z3.fpMul(rm, a, b)
         if op == '/': return z3.fpDiv(rm, a, b)
-        if op in ('>>', '|') and z3.is_fp_value(z3.simplify(b)):
-            return self.fp_toint(a, True)            # x >> 0, x | 0
-        if op == '>>>':
-            return self.fp_toint(a, False)
+        if op in ('&', '|', '^', '<<', '>>', '>>>'):
+            bz = z3.simplify(b)
+            zero = z3.is_fp_value(bz) and z3.is_true(z3.simplify(z3.fpIsZero(bz)))
+            if zero and op in ('>>', '|'):
+                return self.fp_toint(a, True)            # x >> 0, x | 0
+            if zero and op == '>>>':
+                return self.fp_toint(a, False)           # x >>> 0
+            # ECMA-262 13.9-13.12: both operands through ToInt32 (ToUint32 for the left operand of >>>), shift counts masked
+            # to five bits, the result is the signed (>>>: unsigned) 32-bit integer
+            x, y = self.fp_bv32(a), self.fp_bv32(b)
+            sh = y & z3.BitVecVal(31, 32)
+            if op == '>>>':
+                return z3.fpUnsignedToFP(rm, z3.LShR(x, sh), F64)
+            r = {'&': lambda: x & y, '|': lambda: x | y, '^': lambda: x ^ y, '<<': lambda: x << sh, '>>': lambda: x >> sh}[op]()
+            return z3.fpSignedToFP(rm, r, F64)
         raise Unsupported('operator %s in mode fp @%s' % (op, line))
+
+    def fp_bv32(self, v):
+        """the low 32 bits of ToInt32/ToUint32 of a double (mode fp)"""
+        if z3.is_app(v) and v.num_args() == 2 and z3.is_bv(v.arg(1)) and v.arg(1).size() == 32 and v.sort() == F64 \
+           and v.decl().kind() in (z3.Z3_OP_FPA_TO_FP, z3.Z3_OP_FPA_TO_FP_UNSIGNED):
+            return v.arg(1)          # a 32-bit integer converted to double (exact): the integer itself
+        big = z3.fpToSBV(z3.RTZ(), v, z3.BitVecSort(64))
+        fin = z3.And(z3.Not(z3.fpIsNaN(v)), z3.Not(z3.fpIsInf(v)))
+        return z3.simplify(z3.If(fin, z3.Extract(31, 0, big), z3.BitVecVal(0, 32)))
 
     def binop_js(self, st, op, a, b, line):
         if self.mode == 'fp' and isinstance(a, z3.ExprRef) and isinstance(b, z3.ExprRef) and z3.is_fp(a) and z3.is_fp(b):
